@@ -36,11 +36,15 @@ rec('Effect', kind=Int, addr=Rec('IPAddr'), proto=Int, spi=Bytes, aux=Int)
 ghostvar('trace', List(Rec('Effect')))
 ghostvar('now', Int)            # value of the last time.time(); every call returns >= now
 ghostvar('handled', Int)        # number of handler invocations (C08: executed at most once)
+ghostvar('dh_ops', Int)         # Diffie-Hellman key generations and shared-secret computations so far (C18)
 # whether the message Message.parse returned last came through a verified SK payload (observer)
 ghostvar('protected_seen', Bool, observer=True)
 # C16 routing observers: how many datagrams have been handed to IkeSa.process_message, and to which IKE_SA the last
 ghostvar('delivered', Int, observer=True)
 ghostvar('routed', Ref('ikesa.IkeSa'), observer=True)
+
+# Diffie-Hellman objects (library objects): crypto.MODPDH stands for both DH classes; methods are TRUSTED contracts
+heapclass('crypto.MODPDH', group=Int, public_key=Bytes, shared_secret=Opt(Bytes), key_len=Int)
 
 heapclass('ikesa.IkeSa',
           state=Int, my_spi=Bytes, peer_spi=Bytes, my_msg_id=Int, peer_msg_id=Int, is_initiator=Bool,
@@ -51,7 +55,7 @@ heapclass('ikesa.IkeSa',
           rekeying_child_sa=Opt(Rec('ChildSa')), deleting_child_sa=Opt(Rec('ChildSa')), acquire=Opt(Int),
           new_ike_sa=Opt(Ref('ikesa.IkeSa')), retransmit_at=Int, retransmissions=Int, cookie_secret=Opt(Bytes),
           start_dpd_at=Int, rekey_ike_sa_at=Int, delete_ike_sa_at=Int, pending_events=List(Rec('Event')),
-          dh=Opt(Obj('dh')), last_sent_response_data=Opt(Bytes))
+          dh=Opt(Ref('crypto.MODPDH')), last_sent_response_data=Opt(Bytes))
 HEAPCLASSES['ikesa.IkeSa'].dynamic = {'last_sent_response_data'}
 
 heapclass('ikesacontroller.IkeSaController',
